@@ -221,7 +221,20 @@ def apply_variant(v: dict) -> Optional[Dict[str, str]]:
         return _transform_all(v["transform"])
     if "patch" in v:
         with open(os.path.join(os.path.dirname(HERE), v["patch"]), encoding="utf-8") as fh:
-            return apply_unified_diff(fh.read())
+            ov = apply_unified_diff(fh.read())
+        # "then": edits made on top of the patched tree (a breaking change inside a behaviour-preserving refactoring)
+        for e in v.get("then", []):
+            if ov is None:
+                return None
+            if e["file"] in ov:
+                text = ov[e["file"]]
+            else:
+                with open(os.path.join(REPO, e["file"]), encoding="utf-8") as fh:
+                    text = fh.read()
+            if text.count(e["find"]) != 1:
+                return None
+            ov[e["file"]] = text.replace(e["find"], e["replace"])
+        return ov
     if "mutant" in v:
         # a recorded mechanical mutant, re-applied to the current source; stale when the site has moved
         from .mutation import mutate_source
